@@ -1,0 +1,18 @@
+//go:build verif
+
+// Contracts for the deductive verifier in /verif (comment-only file; see /verif/DESIGN.md).
+
+package httpproxy
+
+// Basic authentication gate (properties C07, C16): a user name is only returned for a presented token that
+// is a key of the configured token table, and it is that entry's user; no header value can make it panic.
+//@ func serverHandleBasicAuth
+//@   modifies nothing
+//@   ensures result1 ==> (exists k string :: has(usernameByToken, k) && usernameByToken[k] == result0)
+//@   ensures !result1 ==> result0 == ""
+
+// With authentication enabled (a non-nil token table, even an empty one) a request is only honoured - a
+// pending connection returned - after a request carrying a configured user's token.
+//@ func ServerHandle
+//@   ensures isnil(err) && !isnil(usernameByToken) ==> (exists k string :: has(usernameByToken, k) && usernameByToken[k] == username)
+//@   ensures isnil(err) ==> !isnil(pc)
